@@ -1766,6 +1766,7 @@ func (u *Unit) runAnchorsNamed(st *State, anchor string, pos token.Pos, extra ma
 			for k, a := range call.Args {
 				env[q.Vars[k].Name] = u.specValAt(st, u.old, env, &SGo{E: a, Subs: sg.Subs}, c, pos)
 			}
+			u.eng.axiomsUsed.Store(ax.Name, true)
 			ac := &Clause{Text: ax.Text, File: ax.File, Line: ax.Line}
 			st.assume(u.specBoolAt(st, u.old, env, q.Body, ac, pos))
 		case "assume":
